@@ -31,6 +31,9 @@ SELFTESTS = (("MC_mut_axes.cfg", "RouteGivesDense", "tensordot(G, rho) without s
              ("MC_mut_conj.cfg", "RdmGivesDense", "conjugate on the ket copy in every rho route"))
 
 
+NORM_ROUTES = ("peps_compute_norm", "peps_normalize", "norm_gloop_expand")
+
+
 class Recorder:
     """all records of one network = one trace"""
 
@@ -46,7 +49,8 @@ class Recorder:
     def _base(self, ev, route, where, bare, nrm):
         geo = self.geo
         return {"ev": ev, "tid": self.tid, "route": route, "sites": [geo.pos[s] + 1 for s in where], "where": str(tuple(where)),
-                "asc": bool(U.is_asc(geo, where)), "bare": bool(bare), "nrm": bool(nrm), "exc": "", "excmsg": "", "ongrid": True, "opts": ""}
+                "asc": bool(U.is_asc(geo, where)), "bare": bool(bare), "nrm": bool(nrm), "exc": "", "excmsg": "", "ongrid": True, "opts": "",
+                "has_exponent": bool(geo.expo), "hist": 0}
 
     def _count(self, route, what):
         d = self.stats.setdefault(route, {"returned": 0, "raised": 0, "skipped": 0})
@@ -114,7 +118,8 @@ class Recorder:
             items.append((key, w, bare, kind, G))
         ra = rng.random() < 0.6
         scale = geo.den if nrm else 1
-        base = {"tid": self.tid, "route": route, "nrm": bool(nrm), "exc": "", "excmsg": "", "ongrid": True, "opts": ""}
+        base = {"tid": self.tid, "route": route, "nrm": bool(nrm), "exc": "", "excmsg": "", "ongrid": True, "opts": "",
+                "has_exponent": bool(geo.expo)}
         try:
             with warnings.catch_warnings():
                 warnings.simplefilter("ignore")
@@ -139,6 +144,63 @@ class Recorder:
             rec["route"] = route + "[terms]"
             self._exc(rec, ex)
             rec["route"] = route
+            self.recs.append(rec)
+
+    # ------------------------------------------------------------------ histories through a reused record
+    def history(self, rng, ncalls, start):
+        geo = self.geo
+        mps = geo.tn.copy()
+        if start == "raw":
+            info = {}
+        elif start == "calc":
+            info = {"cur_orthog": "calc"}
+        else:
+            info = {}
+            mps.canonicalize_(rng.randrange(mps.L), info=info)
+        L = len(geo.sites)
+        for step in range(1, ncalls + 1):
+            n = rng.choice([1, 2, 2, 3]) if L >= 3 else rng.choice([1, 2])
+            where = tuple(rng.sample(geo.sites, n))
+            nrm = rng.random() < 0.5
+            route = rng.choice(["local_expectation_canonical", "compute_local_expectation_canonical", "compute_local_expectation_canonical",
+                                "partial_trace_to_dense_canonical"])
+            ds = [geo.dims[geo.pos[s]] for s in where]
+            if route == "partial_trace_to_dense_canonical":
+                rec = self._base("rdm", route, where, False, nrm)
+                rec.update({"mat": [], "hq": 0, "has_nf": False, "nf": [0, 0], "hist": step, "opts": "history(start=%s) step %d, shared info" % (start, step)})
+            else:
+                kind = rng.choice(["full", "prod"])
+                G, _ = U.rand_op(np.random.default_rng(rng.randrange(1 << 30)), ds, kind)
+                rec = self._base("expect", route, where, False, nrm)
+                rec.update({"G": snap_garray(G.reshape(-1), 1e-9), "kind": kind, "val": [0, 0], "hist": step})
+            try:
+                with warnings.catch_warnings():
+                    warnings.simplefilter("ignore")
+                    if route == "partial_trace_to_dense_canonical":
+                        m = np.asarray(mps.partial_trace_to_dense_canonical(where, normalized=nrm, info=info))
+                        rec["ongrid"], rec["mat"] = U.snap_matrix(m, geo.den if nrm else 1, geo.den)
+                        rec["hq"] = qdiff(m, m.conj().T, 1e-9)
+                    elif route == "local_expectation_canonical":
+                        v = mps.local_expectation_canonical(np.array(G), where, normalized=nrm, info=info)
+                        rec["opts"] = "history(start=%s) step %d, shared info" % (start, step)
+                    else:
+                        inplace = rng.random() < 0.5
+                        via = rng.choice(["compute_local_expectation(method=canonical)", "compute_local_expectation_canonical"])
+                        ra = rng.random() < 0.5
+                        rec["opts"] = "history(start=%s) step %d, shared info, %s, inplace=%s, return_all=%s" % (start, step, via, inplace, ra)
+                        if via.startswith("compute_local_expectation("):
+                            v = mps.compute_local_expectation({where: np.array(G)}, normalized=nrm, return_all=ra, method="canonical", info=info, inplace=inplace)
+                        else:
+                            v = mps.compute_local_expectation_canonical({where: np.array(G)}, normalized=nrm, return_all=ra, info=info, inplace=inplace)
+                        v = v[where] if ra else v
+                    if rec["ev"] == "expect":
+                        rec["ongrid"], rec["val"] = U.snap_scalar(complex(v), geo.den if nrm else 1, geo.den * float(np.abs(G).sum()))
+                self._count(route + "[history]", "returned")
+            except Exception as ex:  # noqa
+                r0 = rec["route"]
+                rec["route"] = r0 + "[history]"
+                self._exc(rec, ex)
+                rec["route"] = r0
             self.recs.append(rec)
 
     # ------------------------------------------------------------------ matrix routes
@@ -229,6 +291,30 @@ class Recorder:
     # ------------------------------------------------------------------ 2D norm / normalize
     def norm(self, route, rng):
         geo = self.geo
+        if route == "norm_gloop_expand":
+            rec = {"ev": "norm", "tid": self.tid, "route": route, "exc": "", "excmsg": "", "ongrid": True, "val": [0, 0], "opts": "",
+                   "has_exponent": bool(geo.expo)}
+            try:
+                tn, gauges = geo.tn, {}
+                tng, gg = geo.gauged()
+                if tng is not None and rng.random() < 0.6:
+                    tn, gauges = tng, gg
+                strip = rng.random() < 0.4
+                # reducing tree-like parts away is exact only at a BP fixed point, i.e. with converged gauges
+                ared = bool(tn is not geo.tn and rng.random() < 0.5)
+                rec["opts"] = "gauges=%s,strip_exponent=%s,autoreduce=%s" % ("converged" if tn is not geo.tn else "{}", strip, ared)
+                with warnings.catch_warnings():
+                    warnings.simplefilter("ignore")
+                    v = tn.norm_gloop_expand(gloops=[tuple(geo.sites)], gauges=gauges, strip_exponent=strip, autoreduce=ared,
+                                             autocomplete=rng.choice([False, True]))
+                if strip:
+                    v = v[0] * 10.0 ** float(v[1])
+                rec["ongrid"], rec["val"] = U.snap_scalar(complex(v) ** 2, 1, geo.den)
+                self._count(route, "returned")
+            except Exception as ex:  # noqa
+                self._exc(rec, ex)
+            self.recs.append(rec)
+            return rec
         kw = {"max_bond": rng.choice([None, 64, 256]), "mode": rng.choice(U.PEPS_MODES), "canonize": rng.choice([True, False]),
               "layer_tags": rng.choice([("KET", "BRA"), None])}
         if rng.random() < 0.5:
@@ -237,7 +323,8 @@ class Recorder:
             kw["max_bond"] = 256      # this mode compares bond sizes with the cap: it needs a number
         opts = ",".join("%s=%s" % kv for kv in sorted(kw.items()))
         if route == "peps_compute_norm":
-            rec = {"ev": "norm", "tid": self.tid, "route": route, "exc": "", "excmsg": "", "ongrid": True, "val": [0, 0], "opts": opts}
+            rec = {"ev": "norm", "tid": self.tid, "route": route, "exc": "", "excmsg": "", "ongrid": True, "val": [0, 0], "opts": opts,
+                   "has_exponent": bool(geo.expo)}
             try:
                 with warnings.catch_warnings():
                     warnings.simplefilter("ignore")
@@ -247,7 +334,8 @@ class Recorder:
             except Exception as ex:  # noqa
                 self._exc(rec, ex)
         else:
-            rec = {"ev": "normalize", "tid": self.tid, "route": route, "exc": "", "excmsg": "", "n2q": 0, "propq": 0, "opts": opts}
+            rec = {"ev": "normalize", "tid": self.tid, "route": route, "exc": "", "excmsg": "", "n2q": 0, "propq": 0, "opts": opts,
+                   "has_exponent": bool(geo.expo)}
             try:
                 with warnings.catch_warnings():
                     warnings.simplefilter("ignore")
@@ -271,7 +359,7 @@ class Recorder:
             return self.rdm(route, where, bare, nrm, rng)
         if route in ("operator_trace", "operator_partial_transpose", "mpo_trace", "mpo_partial_transpose"):
             return self.operator(route, where, bare, nrm, rng)
-        if route in ("peps_compute_norm", "peps_normalize"):
+        if route in NORM_ROUTES:
             return self.norm(route, rng)
         raise MachineryError("the model lists a route the driver does not know: %s" % route)
 
@@ -361,8 +449,8 @@ def run(ctx):
             kind = rng.choice(["full", "prod"])
             G, fs = U.rand_op(np.random.default_rng(rng.randrange(1 << 30)), ds, kind)
             for c in table[key]:
-                if c["route"] in ("peps_compute_norm", "peps_normalize") and (n != 1 or bare or not c["nrm"]):
-                    continue   # not requests about sites: asked once per class below
+                if c["route"] in NORM_ROUTES and (n != 1 or bare or not c["nrm"]):
+                    continue   # not requests about sites: asked once per shape class
                 rec.ask(c["route"], where, bare, c["nrm"], rng, op=(kind, G, fs))
                 nasked += 1
 
@@ -388,6 +476,7 @@ def run(ctx):
 
     lap("replay_states")
     # ---- 4. C->S: random networks, every kind of ordered tuple, every available route, random options
+    sweep_done = []
     sweep_geos = 2 if quick else 8
     per_shape = 1 if quick else 3
     for cls in ("mps", "mpsc", "peps", "peps3d", "tree", "ring", "loopy"):
@@ -406,7 +495,7 @@ def run(ctx):
                         if where is None:
                             continue
                         for c in table[(cls, thin, n, asc, bare)]:
-                            if not c["avail"] or c["route"] in ("peps_compute_norm", "peps_normalize"):
+                            if not c["avail"] or c["route"] in NORM_ROUTES:
                                 continue
                             if cls == "peps3d" and not thin and quick and rng.random() < 0.5:
                                 continue
@@ -431,12 +520,69 @@ def run(ctx):
                             if len(wheres) >= 2:
                                 rec.multi(route, wheres, nrm, rng, recname=troute)
                                 nasked += 1
+                rec.ask("norm_gloop_expand", geo.sites[:1], False, True, rng)
                 if cls == "peps":
                     for _ in range(2 if quick else 4):
                         rec.ask("peps_compute_norm", geo.sites[:1], False, True, rng)
                         rec.ask("peps_normalize", geo.sites[:1], False, True, rng)
+                sweep_done.append((cls, thin, geo))
 
     lap("random_sweeps")
+    # ---- 4b. the same state written with a non-zero stored exponent (equalize_norms_, strip_exponent, by hand):
+    #          every available route, every normalisation mode; the dense reference includes 10**exponent
+    seen_cls = {}
+    for cls, thin, geo in sweep_done:
+        k = seen_cls.get((cls, thin), 0)
+        if k >= (1 if quick else 3):
+            continue
+        how = ("equalize", "strip", "manual")[(k + len(seen_cls)) % 3] if quick else ("equalize", "strip", "manual")[k % 3]
+        ge = U.with_exponent(geo, how, rng)
+        if ge is None:
+            continue
+        seen_cls[(cls, thin)] = k + 1
+        rec = Recorder(ge, len(recorders), stats)
+        recorders.append(rec)
+        shapes = sorted({kk[2:] for kk in table if kk[0] == cls and kk[1] == thin})
+        for (n, asc, bare) in shapes:
+            if (bare and rec.strings) or len(ge.sites) < n or (quick and n == 3):
+                continue
+            where = pick_tuple(ge, n, asc, rng)
+            if where is None:
+                continue
+            for c in table[(cls, thin, n, asc, bare)]:
+                if not c["avail"] or c["route"] in NORM_ROUTES:
+                    continue
+                if cls == "peps3d" and not thin and quick and rng.random() < 0.5:
+                    continue
+                rec.ask(c["route"], where, bare, c["nrm"], rng)
+                nasked += 1
+        for route in sorted(U.MULTI_ROUTES):
+            troute = {"compute_local_expectation_cluster": "local_expectation_cluster"}.get(route, route)
+            lat = route.startswith("peps_")
+            if not any(c["route"] == troute and c["avail"] for c in table.get((cls, thin, 1, True, lat), [])):
+                continue
+            for nrm in (True, False):
+                wheres = [w for w in (pick_tuple(ge, 1, True, rng), pick_tuple(ge, 2, True, rng)) if w is not None]
+                if len(wheres) == 2:
+                    rec.multi(route, wheres, nrm, rng, recname=troute)
+                    nasked += 1
+        rec.ask("norm_gloop_expand", ge.sites[:1], False, True, rng)
+        if cls == "peps":
+            rec.ask("peps_compute_norm", ge.sites[:1], False, True, rng)
+            rec.ask("peps_normalize", ge.sites[:1], False, True, rng)
+
+    # ---- 4c. histories: ONE MPS object and ONE `info` dict threaded through consecutive calls of the 1D
+    #          canonical routes at different site tuples (inplace False / True, starting from a non-canonical
+    #          and from a canonicalised state); every call is judged
+    nhist = 6 if quick else 40
+    mps_geos = [g for c, t, g in sweep_done if c == "mps"]
+    for h in range(nhist):
+        geo = mps_geos[h % len(mps_geos)] if h % 3 else U.build_geo("mps", rng, variant=h)
+        rec = Recorder(geo, len(recorders), stats)
+        recorders.append(rec)
+        rec.history(rng, 2 + h % 3 + (1 if not quick else 0), start=("raw", "canonical", "calc")[h % 3])
+        nasked += 1
+    lap("exponent+histories")
     # ---- 5. TLC judges
     recs = []
     for r in recorders:
@@ -501,4 +647,11 @@ def run(ctx):
             f["clause"], r.get("route"), cls_of[r["tid"]],
             r.get("sites"), r.get("bare"), r.get("nrm"), r.get("exc") or "(returned)"))
     ctx.extra["model_drift_notes"] = len(notes)
+    brk = {}
+    for f in fails:
+        if not f["clause"].startswith("NOTE:"):
+            r = f["record"]
+            k = "%s|%s|nrm=%s|exponent=%s|hist=%s" % (f["clause"], r.get("route"), r.get("nrm"), r.get("has_exponent"), bool(r.get("hist")))
+            brk[k] = brk.get(k, 0) + 1
+    ctx.extra["failed_clause_breakdown"] = brk
     ctx.judge([f for f in fails if not f["clause"].startswith("NOTE:")])
